@@ -89,6 +89,13 @@ def run(ctx):
                 check("snyk-comma", scheme, rcls, e1, want, lambda: vr.build_range_from_snyk_advisory_string(scheme, e1))
             e2 = " ".join(k + v for k, v in cl)
             check("snyk-space", scheme, rcls, e2, want, lambda: vr.build_range_from_snyk_advisory_string(scheme, r.choice([e2, [e2]])))
+            # a list whose items use different notations: each item is split by its own separator
+            if len(cl) >= 3:
+                h = r.randint(1, len(cl) - 2)
+                items = [", ".join(k + sp(r) + v for k, v in cl[:h + 1]), " ".join(k + v for k, v in cl[h + 1:])]
+                if len(cl[:h + 1]) >= 2:
+                    r.shuffle(items)
+                    check("snyk-mixed-list", scheme, rcls, list(items), want, lambda: vr.build_range_from_snyk_advisory_string(scheme, list(items)))
             # ---- Snyk bracket intervals
             if len(vt) >= 2:
                 a, b = vt[0], vt[1]
@@ -152,6 +159,10 @@ def run(ctx):
             pieces[r.randrange(n)] = r.choice(["", " ", ">=", "1.0 2.0", ",", "(1.0", "[1,2)"])
         e = r.choice([", ", ",", " ,", " "]).join(pieces)
         items = [e] if r.random() < 0.7 else pieces
+        if n >= 3 and r.random() < 0.3:
+            k0 = r.randint(2, n - 1)
+            items = [", ".join(pieces[:k0]), " ".join(p.replace(" ", "") for p in pieces[k0:])]
+            r.shuffle(items)
         for verb, f in (("adv_github", vr.build_range_from_github_advisory_constraint), ("adv_snyk", vr.build_range_from_snyk_advisory_string)):
             try:
                 w = "OK " + text.gclist_text(f("zzgen", items if len(items) > 1 else items[0]).constraints)
